@@ -1,22 +1,223 @@
 import Props.Defs
 import Proofs.Conflict
-namespace Coma.Proofs
+
+namespace Coma.Proofs.ConflictAll
 open Coma Coma.Spec
+
+/-! ### relating `resolvePair`, `resolveFrom` to their branch-recording variants -/
+
+theorem resolvePair_ok_iff {P : Params} {L R l r : Seg} :
+    resolvePair P L R = .ok (l, r) ↔ ∃ b, resolvePairB P L R = .ok (l, r, b) := by
+  cases h : resolvePairB P L R with
+  | error e => simp [resolvePair, h, bind, Except.bind]
+  | ok v =>
+    obtain ⟨l0, r0, b0⟩ := v
+    simp only [resolvePair, h, bind, Except.bind, pure, Except.pure, Except.ok.injEq, Prod.mk.injEq]
+    constructor
+    · rintro ⟨rfl, rfl⟩; exact ⟨b0, rfl, rfl, rfl⟩
+    · rintro ⟨b, rfl, rfl, _⟩; exact ⟨rfl, rfl⟩
+
+theorem resolveFromB_nil {P : Params} {l : Seg} : resolveFromB P l [] = .ok ([l], []) := rfl
+
+theorem resolveFromB_cons_ok_iff {P : Params} {l r : Seg} {rest out : List Seg} {bs : List Branch} :
+    resolveFromB P l (r :: rest) = .ok (out, bs) ↔
+      ∃ l' r' b tail bs', resolvePairB P l r = .ok (l', r', b) ∧
+        resolveFromB P r' rest = .ok (tail, bs') ∧ out = l' :: tail ∧ bs = b :: bs' := by
+  cases h : resolvePairB P l r with
+  | error e => simp [resolveFromB, h, bind, Except.bind]
+  | ok v =>
+    obtain ⟨l0, r0, b0⟩ := v
+    cases h2 : resolveFromB P r0 rest with
+    | error e =>
+      simp only [resolveFromB, h, h2, bind, Except.bind]
+      constructor
+      · intro hh; cases hh
+      · rintro ⟨l', r', b, tail, bs', he, h3, _, _⟩
+        cases he
+        rw [h2] at h3; cases h3
+    | ok w =>
+      obtain ⟨t0, bs0⟩ := w
+      simp only [resolveFromB, h, h2, bind, Except.bind, pure, Except.pure]
+      constructor
+      · intro hh; cases hh
+        exact ⟨l0, r0, b0, t0, bs0, rfl, h2, rfl, rfl⟩
+      · rintro ⟨l', r', b, tail, bs', he, h3, rfl, rfl⟩
+        cases he
+        rw [h2] at h3; cases h3
+        rfl
+
+theorem resolveFrom_cons_ok_iff {P : Params} {l r : Seg} {rest out : List Seg} :
+    resolveFrom P l (r :: rest) = .ok out ↔
+      ∃ l' r' tail, resolvePair P l r = .ok (l', r') ∧
+        resolveFrom P r' rest = .ok tail ∧ out = l' :: tail := by
+  cases h : resolvePair P l r with
+  | error e => simp [resolveFrom, h, bind, Except.bind]
+  | ok v =>
+    obtain ⟨l0, r0⟩ := v
+    cases h2 : resolveFrom P r0 rest with
+    | error e =>
+      simp only [resolveFrom, h, h2, bind, Except.bind]
+      constructor
+      · intro hh; cases hh
+      · rintro ⟨l', r', tail, he, h3, _⟩
+        cases he
+        rw [h2] at h3; cases h3
+    | ok t0 =>
+      simp only [resolveFrom, h, h2, bind, Except.bind, pure, Except.pure]
+      constructor
+      · intro hh; cases hh
+        exact ⟨l0, r0, t0, rfl, h2, rfl⟩
+      · rintro ⟨l', r', tail, he, h3, rfl⟩
+        cases he
+        rw [h2] at h3; cases h3
+        rfl
+
+theorem resolveFrom_ok_iff {P : Params} : ∀ (cs : List Seg) (c : Seg) (out : List Seg),
+    resolveFrom P c cs = .ok out ↔ ∃ bs, resolveFromB P c cs = .ok (out, bs) := by
+  intro cs
+  induction cs with
+  | nil =>
+    intro c out
+    simp only [resolveFrom, resolveFromB, Except.ok.injEq, Prod.mk.injEq]
+    constructor
+    · intro h; exact ⟨[], h, rfl⟩
+    · rintro ⟨_, h, _⟩; exact h
+  | cons r rest ih =>
+    intro c out
+    rw [resolveFrom_cons_ok_iff]
+    constructor
+    · rintro ⟨l', r', tail, h1, h2, rfl⟩
+      obtain ⟨b, hb⟩ := resolvePair_ok_iff.1 h1
+      obtain ⟨bs', hbs⟩ := (ih r' tail).1 h2
+      exact ⟨b :: bs', resolveFromB_cons_ok_iff.2 ⟨l', r', b, tail, bs', hb, hbs, rfl, rfl⟩⟩
+    · rintro ⟨bs, h⟩
+      obtain ⟨l', r', b, tail, bs', h1, h2, rfl, rfl⟩ := resolveFromB_cons_ok_iff.1 h
+      exact ⟨l', r', tail, resolvePair_ok_iff.2 ⟨b, h1⟩, (ih r' tail).2 ⟨bs', h2⟩, rfl⟩
+
+/-! ### the invariant: a suffix of a `LeftOK` segment is `LeftOK` -/
+
+theorem leftOK_of_suffix {r R : Seg} (hR : LeftOK R) (h : r.items <:+ R.items) : LeftOK r := by
+  refine ⟨hR.nodup.sublist h.sublist, ?_, ?_⟩
+  · rcases hR.last with h0 | ⟨p, hp⟩
+    · left; rw [h0] at h; exact List.suffix_nil.1 h
+    · obtain ⟨s, hs⟩ := h
+      rw [← hs, List.getLast?_append] at hp
+      cases hr : r.items.getLast? with
+      | none => left; exact List.getLast?_eq_none_iff.1 hr
+      | some x =>
+        right
+        rw [hr] at hp
+        exact ⟨p, by rw [hr]; exact hp⟩
+  · exact List.Pairwise.sublist (h.sublist.filterMap _) hR.asc
+
+theorem pairs_subset_of_sublist {a b : Seg} (h : a.items.Sublist b.items) :
+    ∀ p ∈ a.pairs, p ∈ b.pairs :=
+  fun _ hp => (h.filterMap APos.pair?).subset hp
+
+theorem strictCoords_mono_left {a a' b : Seg} (h : ∀ p ∈ a'.pairs, p ∈ a.pairs)
+    (hS : StrictCoords a b) : StrictCoords a' b :=
+  fun p hp p' hp' => hS p (h p hp) p' hp'
+
+theorem separated_mono_right {a b b' : Seg} (h : ∀ p ∈ b'.pairs, p ∈ b.pairs)
+    (hS : Separated a b) : Separated a b' :=
+  fun p hp p' hp' => hS p hp p' (h p' hp')
+
+/-! ### the pass -/
+
+theorem pass_subrun (P : Params) : ∀ (cs : List Seg) (cur orig : Seg),
+    LeftOK cur → cur.items <:+ orig.items → cur.peak = orig.peak →
+    (∀ s ∈ cs, FactoryLike s) → ∀ out bs, resolveFromB P cur cs = .ok (out, bs) →
+    Forall2 (fun o i => o.items <:+: i.items ∧ o.peak = i.peak) out (orig :: cs) := by
+  intro cs
+  induction cs with
+  | nil =>
+    intro cur orig _ hsuf hpk _ out bs h
+    rw [resolveFromB_nil] at h
+    cases h
+    exact .cons ⟨hsuf.isInfix, hpk⟩ .nil
+  | cons R rest ih =>
+    intro cur orig hcur hsuf hpk hF out bs h
+    obtain ⟨l', r', b, tail, bs', h1, h2, rfl, rfl⟩ := resolveFromB_cons_ok_iff.1 h
+    have hFR : FactoryLike R := hF R (List.mem_cons_self ..)
+    obtain ⟨hpre, hsufR⟩ := resolve_subrun P cur R l' r' b h1 hcur hFR.2
+    obtain ⟨_, _, hpl, hpr⟩ := resolve_sublist P cur R l' r' b h1
+    refine .cons ⟨hpre.isInfix.trans hsuf.isInfix, hpl.trans hpk⟩ ?_
+    exact ih r' R (leftOK_of_suffix hFR.1 hsufR) hsufR hpr
+      (fun s hs => hF s (List.mem_cons_of_mem _ hs)) tail bs' h2
+
+theorem pass_total (P : Params) : ∀ (cs : List Seg) (cur : Seg),
+    LeftOK cur → (∀ s ∈ cs, FactoryLike s) → ∃ out bs, resolveFromB P cur cs = .ok (out, bs) := by
+  intro cs
+  induction cs with
+  | nil => intro cur _ _; exact ⟨[cur], [], rfl⟩
+  | cons R rest ih =>
+    intro cur hcur hF
+    have hFR : FactoryLike R := hF R (List.mem_cons_self ..)
+    obtain ⟨l', r', b, h1⟩ := resolve_total P cur R hcur hFR.2
+    obtain ⟨_, hsufR⟩ := resolve_subrun P cur R l' r' b h1 hcur hFR.2
+    obtain ⟨tail, bs', h2⟩ := ih r' (leftOK_of_suffix hFR.1 hsufR)
+      (fun s hs => hF s (List.mem_cons_of_mem _ hs))
+    exact ⟨l' :: tail, b :: bs', resolveFromB_cons_ok_iff.2 ⟨l', r', b, tail, bs', h1, h2, rfl, rfl⟩⟩
+
+theorem pass_separated (P : Params) : ∀ (cs : List Seg) (cur orig : Seg),
+    LeftOK cur → cur.items <:+ orig.items →
+    (∀ s ∈ cs, FactoryLike s) →
+    (∀ a ∈ orig :: cs, ∀ b ∈ orig :: cs, StrictCoords a b) →
+    ∀ out bs, resolveFromB P cur cs = .ok (out, bs) → (∀ b ∈ bs, b ≠ Branch.interior) →
+    Consec Separated out ∧ ∃ hd tl, out = hd :: tl ∧ hd.items <+: cur.items := by
+  intro cs
+  induction cs with
+  | nil =>
+    intro cur orig _ _ _ _ out bs h _
+    rw [resolveFromB_nil] at h
+    cases h
+    exact ⟨trivial, cur, [], rfl, List.prefix_rfl⟩
+  | cons R rest ih =>
+    intro cur orig hcur hsuf hF hS out bs h hb
+    obtain ⟨l', r', b, tail, bs', h1, h2, rfl, rfl⟩ := resolveFromB_cons_ok_iff.1 h
+    have hFR : FactoryLike R := hF R (List.mem_cons_self ..)
+    obtain ⟨hpre, hsufR⟩ := resolve_subrun P cur R l' r' b h1 hcur hFR.2
+    have hSc : StrictCoords cur R :=
+      strictCoords_mono_left (pairs_subset_of_sublist hsuf.sublist)
+        (hS orig (List.mem_cons_self ..) R (List.mem_cons_of_mem _ (List.mem_cons_self ..)))
+    have hsep : Separated l' r' :=
+      resolve_separated P cur R l' r' b h1 hcur hFR.2 hSc (hb b (List.mem_cons_self ..))
+    obtain ⟨hcons, hd, tl, rfl, hhd⟩ := ih r' R (leftOK_of_suffix hFR.1 hsufR) hsufR
+      (fun s hs => hF s (List.mem_cons_of_mem _ hs))
+      (fun a ha b hb => hS a (List.mem_cons_of_mem _ ha) b (List.mem_cons_of_mem _ hb))
+      tail bs' h2 (fun b' hb' => hb b' (List.mem_cons_of_mem _ hb'))
+    refine ⟨⟨separated_mono_right (pairs_subset_of_sublist hhd.sublist) hsep, hcons⟩,
+      l', hd :: tl, rfl, hpre⟩
+
+theorem eq_ok_of_toOption {ε α} {x : Except ε α} {v : α} (h : x.toOption = some v) : x = .ok v := by
+  cases x with
+  | error e => simp [Except.toOption] at h
+  | ok a => simp [Except.toOption] at h; rw [h]
+
+end Coma.Proofs.ConflictAll
+
+namespace Coma.Proofs
+open Coma Coma.Spec Coma.Proofs.ConflictAll
 
 theorem resolveFrom_subrun (P : Params) (c : Seg) (cs out : List Seg) (h : resolveFrom P c cs = .ok out)
     (hF : ∀ s ∈ c :: cs, FactoryLike s) :
     Forall2 (fun o i => o.items <:+: i.items ∧ o.peak = i.peak) out (c :: cs) := by
-  sorry
+  obtain ⟨bs, hB⟩ := (resolveFrom_ok_iff cs c out).1 h
+  exact pass_subrun P cs c c (hF c (List.mem_cons_self ..)).1 List.suffix_rfl rfl
+    (fun s hs => hF s (List.mem_cons_of_mem _ hs)) out bs hB
 
 theorem resolveFrom_total (P : Params) (c : Seg) (cs : List Seg) (hF : ∀ s ∈ c :: cs, FactoryLike s) :
     ∃ out, resolveFrom P c cs = .ok out := by
-  sorry
+  obtain ⟨out, bs, h⟩ := pass_total P cs c (hF c (List.mem_cons_self ..)).1
+    (fun s hs => hF s (List.mem_cons_of_mem _ hs))
+  exact ⟨out, (resolveFrom_ok_iff cs c out).2 ⟨bs, h⟩⟩
 
 theorem resolveFrom_adjacent_separated (P : Params) (c : Seg) (cs out : List Seg) (bs : List Branch)
     (h : resolveFromB P c cs = .ok (out, bs)) (hF : ∀ s ∈ c :: cs, FactoryLike s)
     (hS : ∀ a ∈ c :: cs, ∀ b ∈ c :: cs, StrictCoords a b) (hb : ∀ b ∈ bs, b ≠ Branch.interior) :
-    Consec Separated out := by
-  sorry
+    Consec Separated out :=
+  (pass_separated P cs c c (hF c (List.mem_cons_self ..)).1 List.suffix_rfl
+    (fun s hs => hF s (List.mem_cons_of_mem _ hs)) hS out bs h hb).1
 
 theorem emptied_middle_counterexample :
     ∃ out bs, resolveFromB ⟨10, 1, -3, 2, 10, 12⟩
@@ -25,6 +226,12 @@ theorem emptied_middle_counterexample :
          ⟨11, [.pair ⟨⟨2, 9⟩, ⟨3, 0⟩, 2, 0⟩, .uqry ⟨2, 1⟩ 11, .pair ⟨⟨3, 17⟩, ⟨1, 5⟩, -1, 0⟩]⟩] = .ok (out, bs) ∧
       (∀ b ∈ bs, b ≠ Branch.interior) ∧
       (match out with | [a, _, c] => sharesLabel a c | _ => false) = true := by
-  sorry
+  refine ⟨[⟨2, [.pair ⟨⟨1,0⟩,⟨3,0⟩,2,0⟩, .uqry ⟨2,1⟩ 2]⟩, ⟨4, []⟩,
+      ⟨11, [.pair ⟨⟨2,9⟩,⟨3,0⟩,2,0⟩, .uqry ⟨2,1⟩ 11, .pair ⟨⟨3,17⟩,⟨1,5⟩,-1,0⟩]⟩],
+    [.index0, .dropLeft], ?_, ?_, ?_⟩
+  · apply eq_ok_of_toOption
+    decide +kernel
+  · decide
+  · decide +kernel
 
 end Coma.Proofs
